@@ -78,6 +78,22 @@ def add_reach_store(cs, period=11):
     return cs
 
 
+TOKENS_DIR = "steady_state_Cell_D_Level_0_chk_plt_Header"
+
+
+def out_path(work, name, k, rec=None):
+    """Where a requested output goes: every third one (k % 3 == 1) lies under a directory whose NAME contains the
+    words the tools look for or rewrite in file names (state, Cell, _D_, Level_, chk, plt, Header). What is
+    written must not depend on how the directories above it are called."""
+    if k % 3 != 1:
+        return os.path.join(work, name)
+    d = os.path.join(work, TOKENS_DIR)
+    os.makedirs(d, exist_ok=True)
+    if rec is not None:
+        rec.count("outputs_under_a_directory_named_with_format_words")
+    return os.path.join(d, name)
+
+
 def add_litter(path):
     """What else may lie in and beside a plotfile directory without being part of it - the Header and the level
     headers say what belongs: editor backups and temporary copies of the headers, hidden files, a backup of a
@@ -110,7 +126,59 @@ def add_litter(path):
             shutil.copytree(os.path.join(path, last), nxt)
     with open(path + ".old", "w") as f:
         f.write("a file beside the plotfile directory\n")
+    try:
+        _foreign_multifabs(path)
+    except Exception:
+        pass        # not a plotfile the independent parser reads (a checkpoint, a 2D slice being built): the rest stays
     return path
+
+
+def _foreign_multifabs(path):
+    """Well-formed data in a level directory that the level header does not list: a second MultiFab on the same
+    boxes (`Avg_H` + `Avg_D_00000`: every FAB of the level, other values, in reverse order in one file - AMReX
+    writes such companions, e.g. nodal data), a stale `Cell_D_<n+1>` left by an earlier output with more files
+    (valid FABs, other values), the AppleDouble companion `._Cell_H`, and a subdirectory holding a copy of the
+    level header. None of them is named by `Cell_H`."""
+    import numpy as np
+    from . import mutate
+    inf = mutate.info(path)
+    for L in inf["levels"]:
+        ld = L["dir"]
+        listed = sorted(L["files"])
+        newoff = {}
+        with open(os.path.join(ld, "Avg_D_00000"), "wb") as out:
+            for b in reversed(L["boxes"]):
+                with open(os.path.join(ld, b["file"]), "rb") as f:
+                    f.seek(b["off"])
+                    hdr = f.readline()
+                    pay = np.frombuffer(f.read(b["plen"]), "<f8") * 0.5 + 7.0
+                newoff[b["bi"]] = out.tell()
+                out.write(hdr)
+                out.write(pay.tobytes())
+        k, lines = 0, []
+        with open(os.path.join(ld, "Cell_H")) as f:
+            for ln in f.read().split("\n"):
+                if ln.startswith("FabOnDisk:"):
+                    ln = f"FabOnDisk: Avg_D_00000 {newoff[k]}"
+                    k += 1
+                lines.append(ln)
+        with open(os.path.join(ld, "Avg_H"), "w") as f:
+            f.write("\n".join(lines))
+        with open(os.path.join(ld, "._Cell_H"), "wb") as f:
+            f.write(b"\x00\x05\x16\x07\x00\x02\x00\x00Mac OS X        " + bytes(range(128, 256)))
+        # a stale binary file: the FABs of the first listed file with other values, under the next free number
+        stem = listed[-1].rsplit("_", 1)[0]
+        width = len(listed[-1].rsplit("_", 1)[1])
+        nxt = max(int(fn.rsplit("_", 1)[1]) for fn in listed) + 1
+        with open(os.path.join(ld, f"{stem}_{nxt:0{width}d}"), "wb") as out:
+            for bi in L["files"][listed[0]]:
+                b = L["boxes"][bi]
+                with open(os.path.join(ld, b["file"]), "rb") as f:
+                    f.seek(b["off"])
+                    out.write(f.readline())
+                    out.write((np.frombuffer(f.read(b["plen"]), "<f8") * 0.0 - 778.0).tobytes())
+        os.makedirs(os.path.join(ld, "backup"), exist_ok=True)
+        shutil.copy(os.path.join(ld, "Cell_H"), os.path.join(ld, "backup", "Cell_H"))
 
 
 def stale_output(out, src):
